@@ -53,7 +53,13 @@ func H_C09_beginblock_checktx_commit() {
 		vfReach("beginblock")
 	case 1:
 		tx := vfTxKind(1, 1)
+		app0 := vfDeepCopy(app1)
 		c1, c2 := app1.CheckTx(abcitypes.RequestCheckTx{Tx: tx}), app2.CheckTx(abcitypes.RequestCheckTx{Tx: tx})
+		// mempool traffic differs from node to node: CheckTx must leave the consensus state alone
+		vfAssert(vfDeepEq(app1.NonceTracker, app0.NonceTracker) && vfDeepEq(app1.Configs, app0.Configs) && vfDeepEq(app1.DKGMap, app0.DKGMap) &&
+			vfDeepEq(app1.ConfigVoting, app0.ConfigVoting) && vfDeepEq(app1.Identities, app0.Identities) && vfDeepEq(app1.BlocksSeen, app0.BlocksSeen) &&
+			vfDeepEq(app1.Validators, app0.Validators) && app1.EONCounter == app0.EONCounter && app1.LastBlockHeight == app0.LastBlockHeight,
+			"checktx-leaves-the-consensus-state-unchanged")
 		c1.Log, c2.Log, c1.Info, c2.Info = "", "", "", ""
 		vfAssert(vfDeepEq(c1, c2), "checktx-response-independent-of-map-order")
 		vfReach("checktx")
